@@ -14,10 +14,10 @@ import (
 var BigVal = strings.Repeat("0123456789abcdef", 200)
 
 var (
-	Keys       = []string{"a", "a\x00", "a\x00\x00", "ab", "b", "\x00", "\xff", "a\xff"}
+	Keys       = []string{"a", "a\x00", "a\x00\x00", "ab", "b", "\x00", "\xff", "a\xff", "a\nb"}
 	Fams       = []string{"f1", "f2"} // families of the schema
 	UnknownFam = "zz"
-	Quals      = []string{"", "q", "q\x00", "\xff", "r"}
+	Quals      = []string{"", "q", "q\x00", "\xff", "r", "q\nr"}
 	Vals       = []string{"", "v", "w1", "\x00\xff\n", "value-three", "\xe4\xf6", BigVal}
 	GoodTS     = []int64{0, 1000, 2000, 3000, model.MaxValidTS}
 	BadTS      = []int64{-2, 1500, math.MaxInt64, -1000, 999}
@@ -30,9 +30,15 @@ type Opts struct {
 	// of Quals and most mutations are SetCells, so that single columns accumulate dozens of versions that are then
 	// overwritten in place and cut by narrow delete ranges.
 	Wide int
+	// QualPool, if set, replaces the qualifier universe (e.g. 50 qualifiers, so that families grow past any
+	// small-size fast path of the column lookup).
+	QualPool []string
 }
 
 func (o Opts) quals() []string {
+	if o.QualPool != nil {
+		return o.QualPool
+	}
 	if o.Wide > 0 {
 		return Quals[:2]
 	}
